@@ -11,6 +11,8 @@
      copies = true   the code with fixes/C14_{arxml,fibex,kcd}_copy.patch applied (what the theorems of props/C14.v are about)
      copies = false  the tree before those fixes (kept so that the findings stay visible as `_refuted` theorems)
    dbc.dump (dbc.py ~112) and dbf.dump (dbf.py ~316) deep-copy in both.
+   kcd.dump leaves its argument alone in both since /repo b679340 (CanCluster keeps its merged view in objects of its own, see
+   `cluster_view`); only arxml and fibex still normalise the object they work on.
 
    Not modelled: `rec.strip()` in arxml.dump (ECU names are taken to carry no surrounding white space), everything a writer
    only READS, the bytes themselves, and CPython's set iteration order (an arbitrary list here). *)
@@ -119,6 +121,12 @@ Definition merge_signal_step (st : matrix * (list Z * list (nat * nat))) (p : na
 Definition merge_signals (m : matrix) : matrix :=
   fst (fold_left merge_signal_step (positions m) (m, ([], []))).
 Definition cluster_update (m : matrix) : matrix := merge_signals (merge_frames m).
+(* Since /repo b679340 update_frames / update_signals collect the merged senders and receivers in SHALLOW COPIES of the first frame /
+   signal of a name (lists of their own): cluster.frames / cluster.signals are a view in objects of the cluster's own, and the
+   member matrices - which kcd.dump iterates and writes from (kcd.py ~158-171: `for frame in db.frames`) - keep what they had.
+   `cluster_view m` is that view, laid out as the matrix in which the first frame / signal of every name carries the merged lists
+   (the entries cluster.frames / cluster.signals hold) and all later ones are as in the member matrix. *)
+Definition cluster_view (m : matrix) : matrix := cluster_update m.
 
 (* ---- the writers ---- *)
 Inductive writer := Arxml | Csv | Dbc | Dbf | Fibex | Json | JsonAll | JsonNative | Kcd | Scapy | Sym | Wireshark | Xls.
@@ -129,8 +137,7 @@ Definition normalise (w : writer) (m : matrix) : matrix :=
   match w with
   | Arxml => arxml_propagate m
   | Fibex => fibex_rename m
-  | Kcd => cluster_update m
-  | _ => m
+  | _ => m      (* incl. Kcd: the CanCluster it builds no longer touches, and is not what is written from, the member matrices *)
   end.
 (* does the writer work on copy.deepcopy of its argument? *)
 Definition works_on_copy (copies : bool) (w : writer) : bool :=
